@@ -336,6 +336,9 @@ bool Uci::perft_command(std::istringstream& istream)
     int depth;
     istream >> depth;
 
+    // perft uses MOVE_LIST[depth] as a buffer for generated moves
+    if (depth >= static_cast<int>(std::size(MOVE_LIST))) return false;
+
     TimePoint start_time = std::chrono::steady_clock::now();
 
     uint64_t sum = 0;
